@@ -51,6 +51,8 @@ pub fn heavy_pool() -> Vec<Key> {
             v.push(Key { e, expr: format!("@{}", "+1".repeat(n)), ph: ph.clone() });
             v.push(Key { e, expr: format!("@{}", "*1".repeat(n)), ph: ph.clone() });
         }
+        // deep on the evaluation side, cheap on the parsing side: ((((@+1)+1)+1)...) - one operator per bracket level
+        for n in [400usize, 900] { v.push(Key { e, expr: format!("{}@{}", "(".repeat(n), "+1)".repeat(n)), ph: ph.clone() }); }
         v.push(Key { e, expr: format!("{}@{}", "(".repeat(120), ")".repeat(120)), ph: ph.clone() });
         v.push(Key { e, expr: format!("{}@{}", "abs(".repeat(100), ")".repeat(100)), ph: ph.clone() });
         if e != "cpx" {
@@ -143,10 +145,14 @@ pub fn run(out: &mut Out, seed: u64, n_seq: usize, n_par: usize, threads: usize)
     // (d) heavy calls overlapping in time: long operator chains, long argument lists and deep nesting keep many calls in
     // flight at the same instant on all threads (a resource shared between calls shows only then); each outcome must equal the
     // one computed alone on one thread
-    let heavy = heavy_pool();
+    let mut heavy = heavy_pool();
+    // the holder: one call that stays deep inside its evaluation for milliseconds (a 2500-link chain around an average of 200 000
+    // arguments), repeated by the first thread while the others run their long calls
+    let holder = heavy.len();
+    heavy.push(Key { e: "f64", expr: format!("avg({}){}", vec!["1"; 200_000].join(","), "+1".repeat(2500)), ph: Val::F(0.0) });
     let alone: Vec<String> = heavy.iter().map(|k| call(k.e, &k.expr, &k.ph).0.canon()).collect();
     out.stats.calls += heavy.len() as u64;
-    let rounds = (n_par / threads.max(1) / 40).max(20);
+    let rounds = (n_par / threads.max(1) / 4).max(100);
     let barrier = std::sync::Barrier::new(threads);
     let bad: Vec<Vec<(usize, String, usize)>> = std::thread::scope(|sc| {
         let hs: Vec<_> = (0..threads).map(|t| {
@@ -156,7 +162,8 @@ pub fn run(out: &mut Out, seed: u64, n_seq: usize, n_par: usize, threads: usize)
                 let mut v = Vec::new();
                 barrier.wait();
                 for r in 0..rounds {
-                    let i = rng.below(heavy.len());
+                    if t == 0 && r >= rounds / 8 { break; }                      // the holder's calls are long: fewer of them
+                    let i = if t == 0 { holder } else { rng.below(holder) };
                     let k = &heavy[i];
                     let (o, _) = call(k.e, &k.expr, &k.ph);
                     if o.canon() != alone[i] { v.push((i, o.canon(), r)); }
